@@ -10,7 +10,12 @@ loader; when the reader refuses the filters, the loader must raise the same exce
 source_ids equals the fresh read that names get_available_source_ids(); the Lean specification `freshSpec` as oracle.
 
 Logs: short ones (<= 10 messages per type) and ones longer than what the reader samples for its available source
-identifiers (identifiers that first appear late, that disappear, single-source logs), and logs without any P1 time.
+identifiers (identifiers that first appear late, that disappear, single-source logs), logs without any P1 time, and logs
+larger than the prefix DataLoader.open() searches for the first system-timestamped message (what open() looks for - system
+time, P1 time, a source id - lies in the head or only beyond that prefix); there the first read on a fresh loader is the
+point: a system-timestamped type with source_ids / relative and absolute time ranges, compared with the same read later on
+the loader, with the reader and with the specification.  Relative time ranges with an explicit p1_t0; open() called again on
+a used loader (same log / another log).
 Calls: message_types is spelled as a list of MessageType, of integers, as a numpy array, as payload classes, a tuple, a
 set, a bare MessageType / class, or a mixture with None entries.
 """
@@ -26,10 +31,17 @@ import numpy as np
 import fv
 
 MODULES = ['FeVerif.Props.C12']
-VARIANT = os.environ.get('C12_VARIANT', '111111')   # which repairs the model has (111111 = the code as it is)
+VARIANT = os.environ.get('C12_VARIANT', '1111111')   # which repairs the model has (1111111 = the code as it is)
 
 P, G, A, E, R, X = 10000, 10001, 10003, 13004, 13002, 11000
 INSTRUMENTED = (P, G, A, E, R, X)
+# PlatformStorageData with a payload of FILL bytes: no P1 time, no system time.  The filler of the logs that are larger than
+# the prefix DataLoader.open() reads when it looks for the first system-timestamped message (1 MiB in the code; measured
+# on the real code on every run, see probe_open_window).
+Z = 13113
+FILL = 16000
+DEFAULT_OPEN_WINDOW = 1 << 20
+MAX_OPEN_WINDOW = 8 << 20
 _BASE_ATTRS = ('message_type', 'message_class', 'params', 'messages', 'message_bytes', 'message_index', 'num_messages')
 
 _tmp = None
@@ -71,6 +83,9 @@ def build_message(F, t, ord_, t2):
     elif t == R:
         m = M.ResetRequest()
         m.reset_mask = ord_
+    elif t == Z:
+        m = M.PlatformStorageDataMessage()
+        m.data = int(ord_).to_bytes(4, 'little') + bytes(FILL - 4)
     else:
         raise ValueError(t)
     if t2 is not None:
@@ -90,6 +105,8 @@ def ident(m):
         v = None if m.system_time_ns is None else m.system_time_ns / 1e9
     elif n == 'ResetRequest':
         v = float(m.reset_mask)
+    elif n == 'PlatformStorageDataMessage':
+        v = float(int.from_bytes(bytes(m.data[:4]), 'little'))
     if v is None or np.isnan(v):
         return 'd%d' % int(round(float(m.p1_time) * 2))
     return str(int(round(v)))
@@ -233,12 +250,87 @@ def gen_untimed_log(rng):
     return [(rng.choice([E, E, R]), None, rng.choice([0, 1]) if two else 0) for _ in range(n)]
 
 
-def gen_log(rng, nan_p1, long_share=0.4):
+PROBE_SCENARIOS = ['sys-late', 'sys-late', 'sys-late', 'sys-late-one-type', 'sys-late-one-type', 'p1-late', 'all-late',
+                   'all-late-no-head', 'sys-early+late', 'sys-just-inside']
+
+
+def gen_probe_log(rng, nan_p1, nfill):
+    """A log that is larger than the prefix DataLoader.open() reads to establish its state.
+
+    open() looks for the first system-timestamped message with a read limited to max_bytes (the "probe window", 1 MiB in
+    the code; `nfill` fillers of FILL bytes are the first to reach past it); the reader samples the available source
+    identifiers from the first messages of each type; t0 comes from the index.  The log is a head (0-9 small messages),
+    the fillers, and a tail of 6-18 small messages that lies beyond the window.  By scenario, what open() probes for is
+    found in the head or only in the tail: the first system-timestamped message (EventNotification), the first message
+    with P1 time, the first P1 time of some of the types (a head of one P1 type only), everything (a head of ResetRequest
+    only / no head at all: the fillers come first); as controls a system-timestamped message in the head as well, and two
+    fillers fewer so that the tail still begins inside the window.  Source identifiers: one or two used throughout, and
+    (half of the logs) one that is used in the tail only."""
+    scen = rng.choice(PROBE_SCENARIOS)
+    common = rng.choice([[0], [0, 1], [0, 1], [1, 3]])
+    late_id = 7 if rng.random() < 0.5 else None
+    t2 = rng.choice([20, 21, 40])
+    spec = []
+
+    def time_of(t):
+        if t in (P, G, A):
+            return None if (nan_p1 and rng.random() < 0.15) else t2
+        return None
+
+    def step():
+        nonlocal t2
+        r = rng.random()
+        if r < 0.45:
+            t2 += 2
+        elif r < 0.6:
+            t2 += 1
+        elif r < 0.63:
+            t2 = max(2, t2 - 1)
+
+    p1_types = rng.choice([(P,), (G,), (P, G), (P, A), (P, G, A)])
+    if scen == 'sys-late':
+        head_types = list(p1_types) + [R]
+    elif scen == 'sys-late-one-type':
+        head_types = [rng.choice(p1_types)]
+    elif scen == 'p1-late':
+        head_types = [E, E, R]
+    elif scen == 'all-late':
+        head_types = [R]
+    elif scen == 'all-late-no-head':
+        head_types = []
+    else:
+        head_types = list(p1_types) + [E, R]
+    nhead = rng.choice([1, 2, 5, 9]) if head_types else 0
+    for i in range(nhead):
+        t = head_types[i % len(head_types)] if i < len(head_types) else rng.choice(head_types)
+        spec.append((t, time_of(t), common[i % len(common)]))
+        step()
+    n = nfill - 2 if scen == 'sys-just-inside' else nfill + rng.choice([0, 0, 1, 3])
+    for _ in range(max(n, 1)):
+        spec.append((Z, None, rng.choice(common)))
+    tail_types = [E] + list(p1_types) + ([R] if rng.random() < 0.3 else [])
+    cyc = rng.random() < 0.5
+    ntail = rng.choice([6, 9, 12, 18])
+    for j in range(ntail):
+        t = tail_types[j % len(tail_types)] if cyc or j < len(tail_types) else rng.choice(tail_types)
+        pool = common + ([late_id] if late_id is not None else [])
+        src = pool[j % len(pool)] if cyc else rng.choice(pool)
+        spec.append((t, time_of(t), src))
+        if not cyc or j % len(tail_types) == len(tail_types) - 1:
+            step()
+    if not any(s[1] is not None for s in spec):
+        spec[-1] = (P, t2, spec[-1][2])
+    return spec
+
+
+def gen_log(rng, nan_p1, long_share=0.4, nfill=None):
     r = rng.random()
     if r < 0.07:
         return gen_untimed_log(rng)
     if r < 0.07 + long_share:
         return gen_long_log(rng, nan_p1)
+    if nfill is not None and r < 0.07 + long_share + 0.08:
+        return gen_probe_log(rng, nan_p1, nfill)
     return gen_short_log(rng, nan_p1)
 
 
@@ -256,7 +348,10 @@ def write_log(F, spec, name):
 
 # ---- calls ------------------------------------------------------------------------------------------
 DEFAULT_CALL = dict(types=None, tr=None, src=None, ic=False, max=None, rp1=False, rsys=False, inorder=False, ridx=False,
-                    numpy=False, keep=False, rmnan=True, align=0, aligned=None, tform='enum')
+                    numpy=False, keep=False, rmnan=True, align=0, aligned=None, tform='enum', reopen=None)
+# reopen: before the call, open() is called on the same loader - 'same': with the log it has open, 'other': with the other
+# log of the pair (Env.alt; the loader then stays on that log until the next 'other').  The call must return what a loader
+# freshly opened on that log returns.
 # how message_types is spelled in the call (the model sees the normalised set): a list of MessageType, of plain integers,
 # a numpy array of the values, a list of payload classes, a tuple, a set, or (one type) the bare MessageType / class
 TFORMS = ['int', 'ndarray', 'class', 'tuple', 'set', 'single', 'single-class', 'mixed']
@@ -294,14 +389,23 @@ def gen_call(rng, spec, nan_p1, avail=None):
         c['tform'] = rng.choice(TFORMS)
     if rng.random() < (0.35 if times else 0.6):
         absolute = rng.random() < 0.6
-        base = 0 if absolute else lo
+        t0 = None
+        if not absolute and times and rng.random() < 0.3:
+            # a relative range with an explicit p1_t0: evaluated from that t0, not from the first P1 time of the log
+            t0 = rng.choice([lo, lo + 2, lo + 4, (lo + hi) // 2, rng.choice(times)])
+        base = 0 if absolute else (lo if t0 is None else t0)
         grid = [None, None, lo - 2, lo, lo + 2, (lo + hi) // 2, hi, hi + 1, hi + 10]
+        if times:
+            # bounds at P1 times that occur in the log (in a log with a gap - a head, fillers, a tail - the fixed grid
+            # above has no point inside the tail)
+            u = rng.choice(times)
+            grid += [u, u + 1, rng.choice(times) + 2]
         s, e = rng.choice(grid), rng.choice(grid)
         s = None if s is None else (s - base) / 2.0
         e = None if e is None else (e - base) / 2.0
         if s is not None and s < 0:
             s = 0.0
-        c['tr'] = (s, e, absolute)
+        c['tr'] = (s, e, absolute) if t0 is None else (s, e, False, t0)
     if rng.random() < 0.3:
         c['src'] = rng.choice(src_choices(spec, avail))
     if rng.random() < 0.45:
@@ -322,6 +426,50 @@ def gen_call(rng, spec, nan_p1, avail=None):
         if rng.random() < 0.3:
             c['aligned'] = tuple(sorted(rng.sample([P, G, A, X], rng.choice([1, 2, 3]))))
     c['ic'] = rng.random() < 0.1
+    return c
+
+
+def first_read_call(rng, spec, nan_p1, avail=None):
+    """A call whose result depends on state the loader establishes when the log is opened (t0, system t0, the available
+    source identifiers): the requested types include a system-timestamped type when the log has one (plus a few others),
+    and the call names source identifiers and/or a relative or absolute time range.  Made as the FIRST call of a history
+    (the first read on a fresh loader), and repeated later in the history."""
+    c = gen_call(rng, spec, nan_p1, avail)
+    present = sorted(set(s[0] for s in spec))
+    small = [t for t in present if t != Z] or present
+    sys_types = [t for t in small if t == E]
+    r = rng.random()
+    if r < 0.15:
+        c['types'] = None
+    else:
+        k = rng.choice([0, 1, 1, 2, 3])
+        others = [t for t in small if t not in sys_types]
+        chosen = set(sys_types if rng.random() < 0.85 else []) | set(rng.sample(others, min(k, len(others))))
+        if not chosen:
+            chosen = {rng.choice(small)}
+        c['types'] = tuple(sorted(chosen))
+    c['tform'] = 'enum'
+    times = [s[1] for s in spec if s[1] is not None]
+    q = rng.random()
+    if q < 0.45 or not times:
+        c['src'] = rng.choice(src_choices(spec, avail))
+        if rng.random() < 0.6:
+            c['tr'] = None
+    if (q >= 0.3 or c['src'] is None) and times:
+        lo, hi = min(times), max(times)
+        absolute = rng.random() < 0.35
+        base = 0 if absolute else lo
+        u, w = rng.choice(times), rng.choice(times)
+        s, e = rng.choice([(u, None), (u, max(u, w) + 2), (min(u, w), max(u, w) + 1), (None, u + 1), (u, u + 1),
+                           ((lo + hi) // 2, None)])
+        c['tr'] = (None if s is None else max(0.0, (s - base) / 2.0), None if e is None else (e - base) / 2.0, absolute)
+    if rng.random() < 0.7:
+        c['max'] = None
+    c['rsys'] = rng.random() < 0.1
+    c['rp1'] = rng.random() < 0.1
+    c['ic'] = rng.random() < 0.1
+    if rng.random() < 0.7:
+        c['align'], c['aligned'] = 0, None
     return c
 
 
@@ -366,6 +514,21 @@ def toggle_open_start(rng, c, spec):
     return d
 
 
+def toggle_t0(rng, c, spec):
+    """A call that differs from `c` only in the explicit p1_t0 of its relative time range (another one, or none): same
+    bounds, other messages - the cache must tell the two apart."""
+    times = [s[1] for s in spec if s[1] is not None]
+    lo, hi = (min(times), max(times)) if times else (20, 40)
+    tr = c['tr']
+    if tr is None or tr[2]:
+        tr = rng.choice([(1.0, 3.0, False), (0.0, 2.0, False), (1.0, None, False), (None, 2.5, False)])
+    cur = tr[3] if len(tr) > 3 else None
+    opts = [t for t in (None, lo, lo + 2, lo + 4, (lo + hi) // 2, rng.choice(times) if times else lo) if t != cur]
+    t0 = rng.choice(opts)
+    d = dict(c, tr=tuple(tr[:3]) + ((t0,) if t0 is not None else ()))
+    return d, dict(c, tr=tuple(tr))
+
+
 def toggle_src(rng, c, spec, avail):
     """A call that differs from `c` only in source_ids: default <-> explicit (the available set, every id of the log, a
     single id, ...).  The default is whatever the reader reports as available when the call is made, so the pair
@@ -396,7 +559,41 @@ def sweep_call(rng, spec):
 
 def gen_history(rng, spec, nan_p1, length, avail=None):
     multi = len(set(s[2] for s in spec)) > 1
-    h = [sweep_call(rng, spec) if (multi and rng.random() < 0.2) else gen_call(rng, spec, nan_p1, avail)]
+    probe = any(s[0] == Z for s in spec)
+    r0 = rng.random()
+    if r0 < (0.5 if probe else 0.08):
+        # state that open() establishes: the call as the first read on the loader, then (after other reads, or at once)
+        # the same call again - from the cache, or past it with ignore_cache
+        c = first_read_call(rng, spec, nan_p1, avail)
+        h = [c]
+        while len(h) < length - 1 and rng.random() < 0.5:
+            h.append(gen_call(rng, spec, nan_p1, avail) if rng.random() < 0.6 else sweep_call(rng, spec))
+        if length >= 2:
+            h.append(dict(c, ic=True) if rng.random() < 0.6 else dict(c))
+    elif length >= 3 and r0 > (0.55 if not any(s[1] is not None for s in spec) else 0.95):
+        # a call after a read that cached every type it asks for (under other arguments), then the same call again: a call
+        # that raises (a time range on a log without P1 time) replaces those entries while it runs, and must leave the
+        # cache as it found it - the repeat has to raise again
+        c = gen_call(rng, spec, nan_p1, avail)
+        c['ic'], c['inorder'] = False, False
+        if c['tr'] is None and rng.random() < 0.8:
+            c['tr'] = rng.choice([(1.0, 3.0, True), (0.0, 2.0, False), (None, 12.5, True), (1.5, None, False)])
+        warm = dict(c, tr=None, tform='enum')
+        q = rng.random()
+        if q < 0.3:
+            warm['types'] = None
+        elif q < 0.5 and c['types'] is not None:
+            present = sorted(set(s[0] for s in spec))
+            warm['types'] = tuple(sorted(set(c['types']) | set(rng.sample(present, 1))))
+        if rng.random() < 0.4:
+            warm['numpy'] = not c['numpy']
+        if rng.random() < 0.3:
+            warm['max'] = None
+        h = [warm, c, dict(c)]
+    elif multi and r0 < 0.28:
+        h = [sweep_call(rng, spec)]
+    else:
+        h = [gen_call(rng, spec, nan_p1, avail)]
     while len(h) < length:
         r = rng.random()
         if avail is not None and r < (0.3 if multi else 0.04):
@@ -417,6 +614,12 @@ def gen_history(rng, spec, nan_p1, length, avail=None):
                 elif k != 'same':
                     back[k] = gen_call(rng, spec, nan_p1, avail)[k]
                 h.append(back)
+        elif r < 0.05 + (0.3 if multi else 0.04):
+            base = rng.choice(h)
+            t, b = toggle_t0(rng, base, spec)
+            if b != base and len(h) + 1 < length:
+                h.append(b)
+            h.append(t)
         elif r < 0.12 + (0.3 if multi else 0.04):
             base = rng.choice(h)
             t = toggle_open_start(rng, base, spec)
@@ -429,12 +632,18 @@ def gen_history(rng, spec, nan_p1, length, avail=None):
             d = dict(base)
             if d['types'] is not None and rng.random() < 0.7:
                 d['tform'] = rng.choice([t for t in TFORMS + ['enum'] if t != base['tform']])
+            elif rng.random() < 0.5:
+                d['ic'] = True          # ... or the same call past the cache: the loader's other state must not matter either
             h.append(d)
         elif r < 0.72:
             h.append(mutate_call(rng, rng.choice(h), spec, nan_p1, avail))
         else:
             h.append(gen_call(rng, spec, nan_p1, avail))
-    return h[:max(length, 1)]
+    h = h[:max(length, 1)]
+    for i in range(1, len(h)):
+        if rng.random() < 0.05:
+            h[i] = dict(h[i], reopen=rng.choice(['same', 'other', 'other']))
+    return h
 
 
 def spell_types(F, types, tform):
@@ -470,7 +679,7 @@ def kwargs_of(F, c):
     if c['types'] is not None:
         kw['message_types'] = spell_types(F, c['types'], c.get('tform', 'enum'))
     if c['tr'] is not None:
-        kw['time_range'] = F['TimeRange'](start=c['tr'][0], end=c['tr'][1], absolute=c['tr'][2])
+        kw['time_range'] = make_tr(F, c['tr'])
     if c['src'] is not None:
         kw['source_ids'] = list(c['src'])
     if c['aligned'] is not None:
@@ -482,12 +691,21 @@ def sc(x):
     return 'n' if x is None else str(int(round(x * 2)))
 
 
+def make_tr(F, tr):
+    """tr = (start, end, absolute) or (start, end, absolute, t0): t0 = the explicit p1_t0 of a relative range, in half seconds."""
+    if tr is None:
+        return F['TimeRange']()
+    if len(tr) > 3 and tr[3] is not None:
+        return F['TimeRange'](start=tr[0], end=tr[1], absolute=tr[2], p1_t0=F['M'].Timestamp(tr[3] / 2.0))
+    return F['TimeRange'](start=tr[0], end=tr[1], absolute=tr[2])
+
+
 def tr_key(F, c):
-    if c['tr'] is None:
-        t = F['TimeRange']()
-    else:
-        t = F['TimeRange'](start=c['tr'][0], end=c['tr'][1], absolute=c['tr'][2])
-    return '%s_%s_%d' % (sc(t.start), sc(t.end), 1 if t.absolute else 0)
+    t = make_tr(F, c['tr'])
+    k = '%s_%s_%d' % (sc(t.start), sc(t.end), 1 if t.absolute else 0)
+    if c['tr'] is not None and len(c['tr']) > 3 and c['tr'][3] is not None:
+        k += '_%d' % c['tr'][3]
+    return k
 
 
 def dots(l, none='*'):
@@ -586,6 +804,9 @@ def mask_model(text):
     return ';'.join(out)
 
 
+STATIC_BROKEN = []
+
+
 class Env:
     """One generated log with what the real reader says about it."""
 
@@ -600,6 +821,8 @@ class Env:
         self.index = ld.reader._original_index
         self.fresh_cache = {}
         self.tr_sel = {}
+        self.alt = None             # the other log of the pair, for open() on a used loader
+        self.untimed_p1 = any(t in (P, G, A) and t2 is None for t, t2, _ in spec)
 
     def loader(self):
         ld = self.F['DataLoader'](self.path, num_threads=1)
@@ -607,9 +830,14 @@ class Env:
         return ld
 
     def assert_static(self, ld):
-        if not ld.reader.have_index() or ld._need_t0 or ld._need_system_t0:
-            raise fv.InfraError('model assumption broken: have_index=%s _need_t0=%s _need_system_t0=%s' %
-                                (ld.reader.have_index(), ld._need_t0, ld._need_system_t0))
+        """The model's assumption about a loader after open() and after every call.  Without an index there is nothing to
+        compare with.  A search for t0 that is still pending is recorded, not raised: the reads of such a loader are judged
+        like all others (against the fresh loader, the reader and the model), and run() raises at the end if the assumption
+        was broken and nothing was found."""
+        if not ld.reader.have_index():
+            raise fv.InfraError('model assumption broken: have_index=False')
+        if ld._need_t0 or ld._need_system_t0:
+            STATIC_BROKEN.append('%s: _need_t0=%s _need_system_t0=%s' % (os.path.basename(self.path), ld._need_t0, ld._need_system_t0))
 
     def order(self, c):
         return list(c['types']) if c['types'] is not None else self.all_types
@@ -637,8 +865,16 @@ class Env:
         hits = 0
         seen = set()
         self.avail_after = []       # get_available_source_ids() after every call (the default of source_ids)
+        self.envs_at = []           # the log the loader has open when each call is made
+        cur = self
         for c in calls:
-            text, res = self.run_call(ld, c)
+            if c.get('reopen'):
+                if c['reopen'] == 'other' and self.alt is not None:
+                    cur = self.alt if cur is self else self
+                ld.open(cur.path, num_threads=1)
+                cur.assert_static(ld)
+            self.envs_at.append(cur)
+            text, res = cur.run_call(ld, c)
             out.append(text)
             try:
                 self.avail_after.append(sorted(int(x) for x in ld.get_available_source_ids()))
@@ -651,15 +887,25 @@ class Env:
                     seen.add(id(v))
                 self._keep = getattr(self, '_keep', [])
                 self._keep.append(res)      # keep objects alive so that ids stay distinct
-            self.assert_static(ld)
+            cur.assert_static(ld)
         self._keep = []
         return out, hits
+
+    def fresh_last(self, calls):
+        """What the last call of the history just run must return: the call on a loader freshly opened on the log the
+        history's loader had open."""
+        return self.envs_at[-1].fresh(calls[-1])
 
     def fresh(self, c):
         k = call_key(self.F, c)
         if k not in self.fresh_cache:
-            self.fresh_cache[k] = self.run_call(self.loader(), c)[0]
+            self.fresh_cache[k] = self.run_call(self.loader(), dict(c, reopen=None))[0]
         return self.fresh_cache[k]
+
+    def offsets(self):
+        """End offset of every message in the file (from the reader's index), plus the file size last."""
+        off = [int(o) for o in self.index.offset]
+        return off[1:] + [os.path.getsize(self.path)] if off else [0]
 
     def log_text(self):
         return ','.join('%d:%d:%s:%d' % (i, t, 'n' if t2 is None else str(t2), s) for i, (t, t2, s) in enumerate(self.spec)) or '-'
@@ -697,6 +943,26 @@ def probe_drops_untimed(F):
     return 1 if len(fi.get_time_range(hint='remove_nans')) == 1 else 0
 
 
+def probe_open_window(F, env):
+    """The number of bytes DataLoader.open() limits its search for the first system-timestamped message to, observed on the
+    real code: the reader's set_max_bytes() is watched (and passed through unchanged) while a loader is opened on a log that
+    contains a system-timestamped type."""
+    cls = F['MixedLogReader']
+    orig = cls.set_max_bytes
+    seen = []
+
+    def watch(self, max_bytes):
+        seen.append(max_bytes)
+        return orig(self, max_bytes)
+    cls.set_max_bytes = watch
+    try:
+        F['DataLoader'](env.path, num_threads=1)
+    finally:
+        cls.set_max_bytes = orig
+    vals = [int(v) for v in seen if v is not None]
+    return max(vals) if vals else None
+
+
 def probe_keeps_unavailable(F, env):
     """Does reader.filter_in_place(source_ids=...) keep a requested id it has not discovered in the log?"""
     rd = F['MixedLogReader'](env.path, num_threads=1)
@@ -716,7 +982,7 @@ def registry_text(F):
 
 
 # ---- signatures -------------------------------------------------------------------------------------------
-KEY_NAMES = {'tform': 'message_types_spelling', 'keep': 'keep_messages', 'numpy': 'return_numpy', 'align': 'time_align', 'aligned': 'aligned_message_types',
+KEY_NAMES = {'reopen': 'open_called_before', 'tform': 'message_types_spelling', 'keep': 'keep_messages', 'numpy': 'return_numpy', 'align': 'time_align', 'aligned': 'aligned_message_types',
              'types': 'message_types', 'max': 'max_messages', 'tr': 'time_range', 'src': 'source_ids', 'rp1': 'require_p1_time',
              'rsys': 'require_system_time', 'ridx': 'return_message_index', 'rmnan': 'remove_nan_times', 'ic': 'ignore_cache',
              'inorder': 'return_in_order'}
@@ -724,7 +990,7 @@ KEY_NAMES = {'tform': 'message_types_spelling', 'keep': 'keep_messages', 'numpy'
 
 def transparent(env, hist):
     out, _ = env.run_history(hist)
-    return len(out) == len(hist) and out[-1] == env.fresh(hist[-1])
+    return len(out) == len(hist) and out[-1] == env.fresh_last(hist)
 
 
 def shrink_history(env, hist):
@@ -752,7 +1018,23 @@ def default_sources_culprit(env, hist):
     return env.fresh(explicit) == env.fresh(last) and transparent(env, hist[:-1] + [explicit])
 
 
+def state_outside_cache_culprit(env, hist):
+    """The last call, made twice in a row on a fresh loader with ignore_cache (so that neither is answered from the cache),
+    gives two different results: the first read changed state of the loader other than the cache (what open() left to be
+    established), and the result of the call depends on it."""
+    rep = dict(hist[-1], ic=True)
+    out, _ = env.run_history([rep, rep])
+    return len(out) == 2 and out[0] != out[1]
+
+
 def transparency_signature(env, hist):
+    if any(c.get('reopen') for c in hist):
+        plain = [dict(c, reopen=None) for c in hist]
+        if all(c.get('reopen') != 'other' for c in hist) and not transparent(env, plain):
+            return transparency_signature(env, plain)       # fails without the open() calls as well
+        return 'C12/read-after-open-on-a-used-loader-differs-from-a-fresh-loader'
+    if state_outside_cache_culprit(env, hist):
+        return 'C12/first-read-on-a-fresh-loader-differs-from-the-same-read-later:state-outside-the-cache'
     if default_sources_culprit(env, hist):
         return 'C12/default-source-ids-depend-on-earlier-reads'
     if len(hist) >= 2:
@@ -929,8 +1211,12 @@ def describe(c):
 
 
 def replay_obj(env, hist):
-    return {'log': [list(s) for s in env.spec], 'history': hist,
-            'how': 'log entries are (type, P1 time in half seconds or null, source id); each history entry is one read() call'}
+    obj = {'log': [list(s) for s in env.spec], 'history': hist,
+           'how': 'log entries are (type, P1 time in half seconds or null, source id); each history entry is one read() call'}
+    if env.alt is not None and any(c.get('reopen') == 'other' for c in hist):
+        obj['other_log'] = [list(s) for s in env.alt.spec]
+        obj['how'] += '; reopen=other: open() is called on the loader with the other of the two logs before the call'
+    return obj
 
 
 # ---- the run ----------------------------------------------------------------------------------------------
@@ -938,6 +1224,7 @@ def one_history(ctx, F, env, hist, reg, drops, lines, pending):
     rng = ctx.rng
     out, hits = env.run_history(hist)
     avail_after = list(env.avail_after)
+    envs_at = list(env.envs_at)
     ctx.count('calls', len(hist))
     ctx.count('cache_hits_observed', hits)
     for c in hist:
@@ -948,19 +1235,19 @@ def one_history(ctx, F, env, hist, reg, drops, lines, pending):
             ctx.count('max_negative' if c['max'] < 0 else 'max_nonnegative')
     # stage D (1): every prefix is a history; its last call must equal the fresh call
     for i in range(len(out)):
-        f = env.fresh(hist[i])
+        f = envs_at[i].fresh(hist[i])
         if out[i] != f:
             small = shrink_history(env, hist[:i + 1])
             sig = transparency_signature(env, small)
             got, _ = env.run_history(small)
             ctx.violation(sig, 'after %s, read(%s) returned %s; a fresh loader returns %s' %
                           (' ; '.join('read(%s)' % describe(c) for c in small[:-1]), describe(small[-1]),
-                           brief(got[-1]), brief(env.fresh(small[-1]))), replay_obj(env, small))
+                           brief(got[-1]), brief(env.fresh_last(small))), replay_obj(env, small))
             break
     else:
         # The default of source_ids is state of the loader's reader (get_available_source_ids()).  If a history changed it,
         # a read with default arguments that is not served from the cache must still return what a fresh loader returns.
-        drift = [i for i, a in enumerate(avail_after) if a != env.avail]
+        drift = [i for i, a in enumerate(avail_after) if a != envs_at[i].avail]
         if drift:
             ctx.count('histories_that_changed_available_source_ids')
             probe = hist[:drift[0] + 1] + [dict(DEFAULT_CALL, ic=True)]
@@ -970,12 +1257,19 @@ def one_history(ctx, F, env, hist, reg, drops, lines, pending):
                 ctx.violation(transparency_signature(env, small),
                               'after %s, get_available_source_ids() is %s (fresh loader: %s) and read(%s) returned %s; a fresh '
                               'loader returns %s' % (' ; '.join('read(%s)' % describe(c) for c in small[:-1]), avail_after[drift[0]],
-                                                     env.avail, describe(small[-1]), brief(got[-1]), brief(env.fresh(small[-1]))),
-                              replay_obj(env, small))
+                                                     envs_at[drift[0]].avail, describe(small[-1]), brief(got[-1]),
+                                                     brief(env.fresh_last(small))), replay_obj(env, small))
     # stage C
     for c in hist:
         if c['types'] is not None and c.get('tform', 'enum') != 'enum':
             ctx.count('message_types_spelled_as_' + c['tform'])
+    opens = [i for i, c in enumerate(hist) if c.get('reopen')]
+    if opens:
+        # open() on the used loader: the model's history starts at the last open(), on the log opened there (the earlier
+        # calls were compared with the fresh loader above)
+        ctx.count('histories_with_open_on_a_used_loader')
+        ctx.count('histories_with_open_of_another_log', int(any(hist[i]['reopen'] == 'other' for i in opens)))
+        env, hist, out = envs_at[-1], hist[opens[-1]:], out[opens[-1]:]
     sels = {}
     for c in hist:
         k, s = env.selection(c)
@@ -1006,6 +1300,12 @@ def run(ctx, nlogs, per_log, maxlen, fresh_spec=True):
     nan_flag, keep_flag = probe_drops_untimed(F), probe_keeps_unavailable(F, env0)
     ctx.count('reader_remove_nans_effective', nan_flag)
     ctx.count('reader_keeps_undiscovered_source_ids', keep_flag)
+    window = probe_open_window(F, env0)
+    ctx.cov['open_probe_window_bytes'] = window
+    if window is None:
+        window = DEFAULT_OPEN_WINDOW      # open() made no byte-limited read on a log with a system-timestamped type
+    per = len(F['Encoder']().encode_message(build_message(F, Z, 0, None)))
+    nfill = min(window, MAX_OPEN_WINDOW) // per + 1
     drops = '%d/%d' % (nan_flag, keep_flag)       # the measured reader behaviours handed to the model
     D = DEFAULT_CALL
     corpus = [
@@ -1023,18 +1323,38 @@ def run(ctx, nlogs, per_log, maxlen, fresh_spec=True):
         [dict(D, types=(P, E), rp1=True, max=2)],
         [dict(D, types=(P, E), rsys=True, max=-2)],
         [dict(D, types=(P, E), src=(0,), max=-2, inorder=True, ridx=True)],
+        # 20ca4d6: relative ranges with the same bounds and different explicit p1_t0 were one cache key
+        [dict(D, types=(P, A), tr=(1.0, 2.0, False, 2)), dict(D, types=(P, A), tr=(1.0, 2.0, False, 4))],
+        [dict(D, types=(P, A), tr=(1.0, 2.0, False, 4)), dict(D, types=(P, A), tr=(1.0, 2.0, False))],
+        # 926a823: open() on a used loader (another log, the same log) kept the cache
+        [dict(D, types=(P,)), dict(D, types=(P,), reopen='other')],
+        [dict(D, types=(P, E), numpy=True), dict(D, reopen='other'), dict(D, types=(P, E), numpy=True, reopen='other')],
+        [dict(D, types=(P, A), max=2), dict(D, types=(P, A), max=2, reopen='same')],
     ]
+    env0.alt = Env(F, [(P, 6, 0), (E, None, 0), (P, 8, 1), (A, 8, 0), (P, 10, 0)], 'corpus_other')
+    envs.append(env0.alt)
     for h in corpus:
         one_history(ctx, F, env0, h, reg, drops, lines, pending)
         ctx.count('corpus_histories')
     for li in range(nlogs):
         nan_p1 = rng.random() < 0.25
-        spec = gen_log(rng, nan_p1)
+        spec = gen_log(rng, nan_p1, nfill=nfill)
         if li == 1:
             spec = gen_long_log(rng, nan_p1)        # every run has a log longer than the source-id sampling ...
         elif li == 2:
-            spec = gen_untimed_log(rng)             # ... and one without P1 time (time ranges raise in the reader)
+            spec = gen_untimed_log(rng)             # ... one without P1 time (time ranges raise in the reader) ...
+        elif li in (3, 4):
+            spec = gen_probe_log(rng, nan_p1, nfill)    # ... and two larger than the prefix open() looks at
         env = Env(F, spec, 'log%d' % li)
+        env.alt = envs[-1]
+        offs = env.offsets()
+        first_sys = [offs[i] for i, x in enumerate(spec) if x[0] == E]
+        first_p1 = [offs[i] for i, x in enumerate(spec) if x[1] is not None]
+        ctx.count('logs_larger_than_open_probe', int(offs[-1] > window))
+        ctx.count('logs_first_system_time_beyond_open_probe', int(bool(first_sys) and first_sys[0] > window))
+        ctx.count('logs_first_p1_time_beyond_open_probe', int(bool(first_p1) and first_p1[0] > window))
+        ctx.count('logs_source_id_only_beyond_open_probe',
+                  int(any(all(offs[i] > window for i, x in enumerate(spec) if x[2] == sid) for sid in set(x[2] for x in spec))))
         ids = set(x[2] for x in spec)
         envs.append(env)
         ctx.count('logs')
@@ -1047,6 +1367,9 @@ def run(ctx, nlogs, per_log, maxlen, fresh_spec=True):
         ctx.count('messages', len(spec))
         for _ in range(per_log):
             hist = gen_history(rng, spec, nan_p1, rng.choice(list(range(1, maxlen + 1)) + [maxlen]), env.avail)
+            if any(c.get('reopen') == 'other' for c in hist) and (env.untimed_p1 or env.alt.untimed_p1):
+                # time alignment is compared on logs without untimed P1-type messages only: none on either log of the pair
+                hist = [dict(c, align=0, aligned=None) for c in hist]
             one_history(ctx, F, env, hist, reg, drops, lines, pending)
             if ctx.elapsed() > (900 if ctx.thorough else 70):
                 break
@@ -1097,7 +1420,11 @@ def run(ctx, nlogs, per_log, maxlen, fresh_spec=True):
                          replay_obj(env, hist))
         ctx.cov['traces_validated_against_impl'] += 1
     for (env, hist, out), mo in list(zip(pending, outs))[14:17]:
-        ctx.sample({'log': env.log_text(), 'history': [describe(c) for c in hist], 'per_call': [o[:160] for o in out]})
+        ctx.sample({'log': env.log_text()[:2000], 'history': [describe(c) for c in hist], 'per_call': [o[:160] for o in out]})
+    ctx.count('loaders_with_a_t0_search_pending_after_open_or_a_read', len(STATIC_BROKEN))
+    if STATIC_BROKEN and not ctx.violations and not ctx.disagreements:
+        raise fv.InfraError('model assumption broken (a search for t0 is still pending after open() / a read) and no read '
+                            'differed: %s' % '; '.join(STATIC_BROKEN[:3]))
 
 
 def search(ctx):
@@ -1121,14 +1448,31 @@ def check(ctx):
                        'sets (including unavailable ones), max_messages of both signs and 0, require_p1_time, require_system_time, '
                        'return_in_order, return_message_index, return_numpy, keep_messages, remove_nan_times, time_align '
                        'DROP/INSERT with and without aligned_message_types, ignore_cache; later calls are mostly earlier calls with '
-                       '0-3 arguments changed. Compared per call and per type: identities of the returned messages (ordinal embedded '
+                       '0-3 arguments changed. State that open() establishes from a prefix of the log: two logs per run (8% of the '
+                       'logs in thorough) are larger than the number of bytes open() limits its search for the first system-timestamped '
+                       'message to (observed on the real code: open_probe_window_bytes; 16 kB PlatformStorageData fillers between a head '
+                       'of 0-9 and a tail of 6-18 messages), with the first system-timestamped message / the first P1 time / the first '
+                       'P1 time of some types / a source id only beyond that prefix (and controls where they are inside); on these half '
+                       'of the histories start with a read of a system-timestamped type with source_ids and/or a relative or absolute '
+                       'time range whose bounds are P1 times of the log, repeated later from the cache or with ignore_cache, and every '
+                       'first read is compared with the reader and the specification. Relative time ranges carry an explicit p1_t0 in '
+                       '30% of the cases; pairs that differ only in p1_t0 are generated. open() is called again on a used loader (the '
+                       'same log, or the other of a pair of logs) before 5% of the later calls: the call must return what a loader '
+                       'freshly opened on that log returns (the model is compared from the last open() on). A call is made after a read '
+                       'that cached all its types under other arguments and then repeated (on logs without P1 time, where a time range '
+                       'raises, in 45% of the histories). Compared per call and per type: identities of the returned messages (ordinal embedded '
                        'in each payload, d<time> for inserted defaults), message_index, and the per-column identities of the numpy '
                        'members. non-trivial = at least two calls, the last returns a message, and some returned MessageData object '
                        'was served from the cache; distinct = distinct (log, history)')
     ctx.assumptions += [
         'the log reader (MixedLogReader / FileIndex: which entries a TimeRange selects, source-id discovery, remove_nans) is a '
         'parameter of the model; its answers are taken from the real reader on every run (properties C10/C11 specify it)',
-        'after DataLoader.open(): have_index() is True and _need_t0 = _need_system_t0 = False (asserted on every loader, after every call)',
+        'after DataLoader.open(): have_index() is True and _need_t0 = _need_system_t0 = False (observed on every loader after open() '
+        'and after every call, also on logs whose first system-timestamped message lies beyond the bytes open() searches; a '
+        'pending search is recorded and the reads are judged like all others - the run fails as infrastructure only if the '
+        'assumption was broken and no read differed)',
+        'an explicit p1_t0 is given to relative time ranges only (for an absolute range the code uses it neither in '
+        'TimeRange.__eq__ nor in the selection)',
         'max_bytes = None and return_bytes = False in every call (return_bytes with return_numpy makes MessageData.to_numpy raise '
         'a swallowed ValueError half way); every generated message deserialises; requested types are registered',
         'no message type has both P1 and system time (checked on the registry on every run; hypothesis of the theorems)',
@@ -1154,6 +1498,8 @@ def replay(ctx, path):
     F = fe()
     spec = [(int(t), None if t2 is None else int(t2), int(s)) for t, t2, s in r['log']]
     env = Env(F, spec, 'replay')
+    if r.get('other_log'):
+        env.alt = Env(F, [(int(t), None if t2 is None else int(t2), int(s)) for t, t2, s in r['other_log']], 'replay_other')
     hist = []
     for c in r['history']:
         c = dict(DEFAULT_CALL, **c)
